@@ -54,6 +54,9 @@ RULE_VOCAB = [
 EMPTY_BATCHES = [("are_named", []), ("are_sub_modules_of", [])]
 
 
+ALL_SHARDS_UNDER_PROFILES = ("optimized",)  # every call sequence again under python -O (no assert statements)
+
+
 def plan(tier, seed):
     n = 4 if tier == "quick" else 5
     specs = [{"kind": "rule_seq", "len": n, "first": i} for i in range(len(RULE_VOCAB))]
